@@ -154,6 +154,63 @@ Proof. exact @handler_at_most_once. Qed.
 Print Assumptions C09_handler_at_most_once.
 
 (* ---------------------------------------------------------------------------------- *)
+(* Several plugins on one runtime.  Plugins register one after the other on one Adaptation; the model
+   of that (sync_all, Model/SyncSplit.v) synchronises each with its own call of synchronize, which starts
+   from the whole state and has no other input: the outcome of the registration at any position is the
+   outcome of that registration alone, whatever was synchronised before it and after it. *)
+Theorem C09_sync_independent :
+  forall (A B U PS : Type) (xmit : list A -> list B -> bool -> xres)
+         (peer : PS -> list A -> list B -> bool -> PS * option (reply U))
+         (rc : Z -> Z -> Z -> Z -> option (Z * Z)) (fuel : list A -> list B -> nat)
+         (before after : list (registration A B PS)) (r : registration A B PS),
+  nth_error (sync_all xmit peer rc fuel (before ++ r :: after)) (length before) = Some (sync_one xmit peer rc fuel r) /\
+  length (sync_all xmit peer rc fuel (before ++ r :: after)) = S (length before + length after).
+Proof. exact sync_independent. Qed.
+Print Assumptions C09_sync_independent.
+
+(* What a remembered chunk size would have to satisfy: the loop started from ANY counts that are legal
+   slices and are 0 only for an exhausted list (Inv) is as good as started from the whole state; counts
+   left over from another synchronisation (0 pods per message because ITS last message had none) are not
+   such counts - C09_ex_zero_start: empty messages flagged More, for ever. *)
+Theorem C09_start_counts_safe :
+  forall (A B U PS : Type) (xmit : list A -> list B -> bool -> xres)
+         (peer : PS -> list A -> list B -> bool -> PS * option (reply U))
+         (ps : list A) (cs : list B) (pp cp : Z) (st : PS) (fuel : nat),
+  honest xmit -> Inv ps cs pp cp -> len ps < 2 ^ 53 -> len cs < 2 ^ 53 ->
+  (Z.to_nat (measure ps cs pp cp) < fuel)%nat ->
+  sync_good peer ps cs st (sync_loop xmit peer recalc fuel ps cs pp cp st).
+Proof. exact @start_counts_safe. Qed.
+Print Assumptions C09_start_counts_safe.
+
+(* ---------------------------------------------------------------------------------- *)
+(* No cap on the retries.  The sender terminates because every retry lowers the number of objects per
+   message (C09_safety: at most 2 * (pods + containers) + 1 iterations), not because few retries suffice:
+   rescaling shrinks the NUMBER of objects, by a tenth per retry at best, so a message headed by one large
+   object needs a number of consecutive retries that grows with the logarithm of the number of small
+   objects behind it.  For the variant of the loop that gives up after cap consecutive oversize retries
+   (sync_loop_capped, Spec/SyncSpec.v; it IS the model while the cap is not reached, C09_capped_below_cap)
+   the delivery theorem is false for cap = 8, 16, 32, 64: one object of 400 000 bytes followed by 20 000 of
+   one byte, every eight consecutive objects fit into a message (I4: delivery is owed), the model delivers
+   (2501 messages), the variant refuses. *)
+Theorem C09_retry_cap_refuted :
+  forall cap : nat, In cap [8; 16; 32; 64]%nat ->
+  exists (ws : list Z) (L : Z),
+    0 < L /\ min_chunks_fit 49 2 L (map id (@nil Z)) (map id ws) = true /\
+    outcome_ok (synchronize (xmit_size id id 49 2 L) (stub_sync (Some cap_h)) recalc (sync_fuel (@nil Z) ws) [] ws stub_init) = true /\
+    outcome_ok (synchronize_capped (xmit_size id id 49 2 L) (stub_sync (Some cap_h)) recalc cap (sync_fuel (@nil Z) ws) [] ws stub_init) = false.
+Proof. exact retry_cap_refuted. Qed.
+Print Assumptions C09_retry_cap_refuted.
+
+Theorem C09_capped_below_cap :
+  forall (A B U PS : Type) (xmit : list A -> list B -> bool -> xres)
+         (peer : PS -> list A -> list B -> bool -> PS * option (reply U))
+         (rc : Z -> Z -> Z -> Z -> option (Z * Z)) (cap fuel : nat) (ps : list A) (cs : list B) (pp cp : Z) (st : PS) (retries : nat),
+  (retries + fuel <= cap)%nat ->
+  sync_loop_capped xmit peer rc cap fuel ps cs pp cp st retries = sync_loop xmit peer rc fuel ps cs pp cp st.
+Proof. exact capped_below_cap. Qed.
+Print Assumptions C09_capped_below_cap.
+
+(* ---------------------------------------------------------------------------------- *)
 (* Delivery (interpretation I4 of DESIGN 2.4).  If every group of at most minObjsPerMsg
    objects - some consecutive pods and some consecutive containers - fits into one message,
    the transport fails only with oversized-message errors (time-outs are outside the
@@ -361,3 +418,23 @@ Example C09_ex_handler_error :
     ss_calls st' = [(ex_pods, ex_ctrs)] /\
     accept_external (fun l => l) true [] tt (outcome_ok (Failed (U := Z) FPeerErr s st')) = [].
 Proof. eexists. eexists. vm_compute. repeat split. Qed.
+
+(* two registrations on one runtime, the second with the state of the first: the same three messages *)
+Example C09_ex_two_plugins :
+  let regs := [(ex_pods, ex_ctrs, @stub_init Z Z); (ex_pods, ex_ctrs, @stub_init Z Z)] in
+  map (fun o => map (fun c : chunk Z Z => (len (fst (fst c)), len (snd (fst c)), snd c)) (sent_of o))
+      (sync_all (xmit_size id id 49 2 1500) (stub_sync (Some ex_h)) recalc sync_fuel regs)
+  = [[(1, 14, true); (1, 14, true); (1, 12, false)]; [(1, 14, true); (1, 14, true); (1, 12, false)]].
+Proof. reflexivity. Qed.
+
+(* the loop started with 0 pods per message although three pods are to be sent (the counts another
+   synchronisation ended with): the containers go out, then empty messages flagged More until the fuel
+   is gone - these start counts violate Inv, the hypothesis of C09_start_counts_safe *)
+Example C09_ex_zero_start :
+  exists s, sync_loop (xmit_size id id 49 2 1500) (stub_sync (Some ex_h)) recalc 40 ex_pods (repeat 100 8) 0 4 stub_init = OutOfFuel s /\
+  map (fun c : chunk Z Z => (len (fst (fst c)), len (snd (fst c)), snd c)) (firstn 4 s) = [(0, 4, true); (0, 4, true); (0, 0, true); (0, 0, true)] /\
+  ~ Inv ex_pods (repeat 100 8) 0 4.
+Proof.
+  eexists. split; [vm_compute; reflexivity|]. split; [reflexivity|].
+  intros [_ [_ [H _]]]. specialize (H eq_refl). discriminate.
+Qed.
